@@ -57,6 +57,28 @@ def step (s : St) : List String → St × String
     match unhexStr n, parseOptVer v with
     | some n, some v => (s, "has " ++ b2s (contains s.grp s.tbl n v))
     | _, _ => (s, "bad-op")
+  | ["get", n, v] =>
+    match unhexStr n, parseOptVer v with
+    | some n, some v =>
+      (s, match getPlugin s.grp s.tbl n v with
+          | some r => "get " ++ showVer r.ver
+          | none => "get none")
+    | _, _ => (s, "bad-op")
+  | ["item", n, v] =>
+    match unhexStr n, parseOptVer v with
+    | some n, some v =>
+      (s, match getItem s.grp s.tbl n v with
+          | some (some r) => "item " ++ showVer r.ver
+          | some none => "item none"
+          | none => "item KeyError")
+    | _, _ => (s, "bad-op")
+  | ["keys", n] =>
+    -- "-" = all references in `keys()` order, otherwise those of one name (in that order)
+    if n == "-" then
+      (s, " ".intercalate ("keys" :: s.tbl.keys.map (fun r => hexStr r.name ++ "@" ++ showVer r.ver)))
+    else match unhexStr n with
+    | some n => (s, " ".intercalate ("keys" :: (s.tbl.keys.filter (fun r => r.name == n)).map (fun r => hexStr r.name ++ "@" ++ showVer r.ver)))
+    | none => (s, "bad-op")
   | ["sort"] => (s, "ok")
   | ["toep", n, v] =>
     match unhexStr n, parseVer v with
